@@ -503,7 +503,7 @@ Print Assumptions c10_scl_wire_nonvacuous.
     awaiting 100, is [gen_try_read_100] (exported by C11).  Inputs the functions take from the http crate (version test, header
     tests, parsed response) are parameters.  Trusted: the translator. *)
 From Hoot Require Import GenLib Gen2.
-From Hoot.proofs Require Import Gen2_equiv_flow.
+From Hoot.proofs Require Import Gen2_equiv_flow_new Gen2_equiv_flow_response.
 Theorem c10_code_new_table : forall h10 cc nb ex,
   gen_flow_new h10 cc nb ex (Ok tt) = Ok ((if h10 then [Http10] else []) ++ (if cc then [ClientConnectionClose] else []), nb, ex).
 Proof. exact gen_flow_new_table. Qed.
@@ -530,7 +530,7 @@ Print Assumptions c10_code_try_response.
 
 (** The header test behind "Connection: close" and "Expect: 100-continue" ([HeaderIterExt::has], src/ext.rs: some field of that name
     has that value, whichever position it is in) is translated from the source as well and proved equal to the model's [headers_has]. *)
-From Hoot.proofs Require Import Gen2_equiv_amended.
+From Hoot.proofs Require Import Gen2_equiv_has.
 Theorem c10_code_headers_has : forall l k v, gen_headers_has l k v = headers_has l k v.
 Proof. exact gen_headers_has_eq. Qed.
 Print Assumptions c10_code_headers_has.
